@@ -42,9 +42,59 @@ S = {
 "C19-1": ("id_string.go: package-level scratch array for packed 6-bit decoding", "concurrent SDR walks whose records use 6-bit packed ID strings"),
 "C19-2": ("sync.Pool of serialize buffers: session Close returns the connection's buffer to the pool", "connection A closes a session but stays open, connection B dialled afterwards, A used again concurrently"),
 "C20-1": ("decodePacked6BitAscii byte count rounds to nearest", "character counts with c % 4 == 3: consumed one short"),
+"C01-3": ("authenticator.go: ICV() always returns a truncatedHash; MD5's documented 'length 0 = not truncated' is honoured by Size() but not by Sum()", "authentication algorithm HMAC-MD5 (suites 6..10): expected RAKP 4 ICV is empty"),
+"C01-4": ("rakp_message_1.go sets the name-only-lookup bit only for non-empty usernames while authenticator.go hashes the role byte from the struct", "empty username with name-only lookup"),
+"C02-3": ("v2session_new.go: RAKP 4 ICV compared over min(received, expected) bytes", "a RAKP 4 payload whose ICV is shortened (down to zero bytes) with a matching wrapper length"),
+"C02-4": ("RAKP AuthCode HMAC cached on the connection, keyed by algorithm but not by password", "two session establishments on one connection with different passwords (full bypass with KG set)"),
+"C03-3": ("pkg/ipmi/v2session.go: Reset() of the shared HMAC only after a successful comparison", "an in-session reply with a wrong AuthCode followed by the retransmission (signed over stale bytes)"),
+"C03-4": ("aes_128_cbc.go: table-driven confidentiality pad with a wrong 14th entry", "message length 0 or 1 mod 16 (pad of 14 or 15 bytes): 9, 10, 25 or 26 bytes of request data"),
+"C04-3": ("hasher.go/v2session.go: 'does this algorithm sign' helper forgets HMAC-MD5-128", "a session on a suite with HMAC-MD5-128 integrity and a reply with the authenticated flag cleared"),
+"C04-4": ("aes_128_cbc.go: pad-length upper bound dropped as redundant", "a signed+encrypted reply of IV + >= 3 blocks with a fully consistent pad 01..N,N, 17 <= N <= 255"),
+"C05-3": ("cipher_suites.go: list index incremented modulo 64, so the ListIndex == 64 bound never triggers", ">= 65 consecutive full 16-byte chunks from the BMC: unbounded loop"),
+"C05-4": ("id_string.go: packed 6-bit byte count uses Round instead of Ceil", "character count with c % 4 == 3 and data exactly one byte short: index out of range"),
+"C06-3": ("get_dcmi_sensor_info.go: the else branch zeroing the instance-start byte removed", "Instance != 0 and earlier traffic on the connection (stale byte of the shared serialize buffer)"),
+"C06-4": ("rakp_message_1.go: username length byte masked with 0x0F", "a username of exactly 16 bytes (length byte goes out as 0)"),
+"C07-3": ("message.go: the two checksum checks merged into checksum(data) != 0", "both checksums wrong with errors cancelling modulo 256 (or bytes 2 and 3 transposed)"),
+"C07-4": ("full_sensor_record.go: ID string character count clamped to 16", "BCD-plus strings of 17..31 or 6-bit strings of 17..21 characters"),
+"C08-3": ("pkg/ipmi/v2session.go: decoder computes the integrity pad assuming a 12-byte header", "OEM-explicit payload type together with Authenticated = true"),
+"C08-4": ("rakp_message_1.go: name-only-lookup bit only set for non-empty usernames (serialiser side)", "empty username with PrivilegeLevelLookup == false"),
+"C09-3": ("v2sessionless.go: only the payload descriptor of the session layer is reassigned before serialising", "a session-less command whose last decoded reply had a non-null session header and which then gives up; later session-less datagrams carry that ID/sequence"),
+"C09-4": ("v2session.go: a 'retransmit' flag reuses the sequence number after a decodable-but-wrong reply", "an unauthenticated / other-session / other-command reply during a command"),
+"C10-3": ("v2session.go: per-command rqSeq that is never masked to 6 bits, and replies must mirror it", "at least 64 commands on one session"),
+"C10-4": ("validateResponseOperation compares the response's requester LUN with the addressed LUN", "a command addressed to a non-zero LUN (Get Sensor Reading with owner LUN 1 or 3)"),
+"C11-3": ("retry loops return nil when a busy reply was seen and the context expired, reading the result from the shared message layer", "node busy, then a stray reply to another command, then the deadline"),
+"C11-4": ("operation check skipped for commands without a response layer", "Chassis Control / Close Session in flight and a stray reply to another command"),
+"C12-3": ("determineCipherSuite skips discovery when the list starts with suite 3", "an explicit list of >= 2 suites headed by suite 3 against a BMC that does not advertise it"),
+"C12-4": ("cipher_suites.go: append moved out of the confidentiality loop (only the last confidentiality algorithm of a record is kept)", "discovery against a record listing >= 2 confidentiality algorithms, wanting one that is not last"),
+"C13-3": ("transport.go: one SetDeadline that only ever moves forwards", "an earlier successful call with a later deadline, then a call with a tighter or expired context while the BMC is silent"),
+"C13-4": ("v2session.go: in-session socket timeout replaced by ctx.Err(), which can be nil", "a response-less command (Chassis Control, Close) with a silent BMC and a deadline longer than the per-attempt timeout: reports success"),
+"C14-3": ("walkSDRs stops when the next record ID is not greater than the current one", "a repository whose next-record chain has a descending ID step"),
+"C14-4": ("V2Session.GetSDRRepositoryInfo reuses one command value, so initial and final info alias", "a mid-walk change that moves a timestamp without cancelling the reservation"),
+"C15-3": ("conversion_factors.go: integer truncation of B*10^K1 for negative result exponents", "K2 < 0, K1 < 0 and B not a multiple of 10^-K1"),
+"C15-4": ("GetSensorReadingRsp.ReadingUnavailable only ever set, never cleared", "a reading with the unavailable flag followed by a normal one on the same reader"),
+"C16-3": ("cipher_suites.go: record value reused across loop iterations, Enterprise only set for OEM records", "a standard record following an OEM record with non-zero IANA"),
+"C16-4": ("getEntityInstances stops when a page is not full (fewer than 8 IDs)", "page size 1..7 and an entity with more instances than one page"),
+"C17-3": ("SendCommand skips decoding when the response body is empty", "a reused command value, an earlier successful response, then completion code 0 with an empty body"),
+"C17-4": ("FullSensorRecord only assigns Identity when the ID string is non-empty", "a named record followed by a record with a zero-length ID string on one layer"),
+"C18-3": ("precomputed completion-code label table filled with c < 0xff", "a valid response carrying completion code 0xff"),
+"C18-4": ("V2Session.SendCommand returns early on a finished context without counting a failure", "an in-session command issued with an already cancelled/expired context"),
+"C19-3": ("determineCipherSuite filters defaultCipherSuites in place with slices.DeleteFunc", "default preferences and one BMC in the process that advertises suite 3 but not 17"),
+"C19-4": ("CompletionCode.String() memoises undescribed codes in an unsynchronised package-level map", "a BMC returning a code without description while another goroutine uses any connection"),
+"C20-3": ("rolling_average.go: day count masked with 0x3f instead of clamped to 63", "a duration of 64 days or more"),
+"C20-4": ("decode8BitAsciiLatin1 hand-transcodes with a constant 0xC2 lead byte", "a string containing a byte in 0xC0..0xFF"),
 "C20-2": ("decode8BitAsciiLatin1 ASCII fast path tests b > 0x80", "a string containing byte 0x80 and no byte 0x81..0xff"),
 }
-strengthened = {"C06-2": "C06 gained usernames built from 2- and 3-byte UTF-8 characters", "C09-2": "C09 gained histories in which a command gives up (context ends while retrying) before the next command",
+strengthened = {"C02-3": "C02 gained payloads shortened/extended with a matching wrapper length", "C02-4": "C02 gained a second handshake on the same connection with another password",
+ "C03-3": "C03 gained retransmissions provoked by damaged replies (bad AuthCode, corrupted ciphertext, unauthenticated copy, other command, truncation)", "C04-4": "C04 gained fully consistent pads longer than a block",
+ "C05-3": "C05 and C16 gained a BMC answering every list index with a full chunk", "C07-3": "C07 gained double checksum corruptions that cancel modulo 256",
+ "C09-3": "C09 gained session-less strays with a non-null session header, give-ups and new handshakes on a used connection", "C09-4": "C09 gained unauthenticated / other-session / other-command replies in the outcome alphabet",
+ "C11-3": "C11 gained the pattern node busy, stray, caller gives up", "C11-4": "C11 gained response-less commands judged by their completion code",
+ "C12-4": "C12 gained advertised records listing several confidentiality algorithms (C16 caught it already)", "C15-4": "C15 gained a second reading on every reader",
+ "C17-3": "C17 gained empty-body / error / truncated second responses on reused command values", "C18-3": "C18 gained completion codes over the whole byte range", "C18-4": "C18 gained commands with an already finished context",
+ "C19-3": "C19 gained BMCs advertising different suite sets and a shared-state canary handshake", "C19-4": "C19 gained commands answered with undescribed completion codes and runs the concurrent round before the solo references",
+ "C19-2": "C19 gained scripted lifecycle/redial personalities and crash handling (detection was schedule dependent before)",
+ "C06-1": "C06 gained parsing of retransmissions (C03/C10/C18 caught it already)", "C07-2": "C07 gained decoding into a long-lived layer (C17 caught it already)", "C08-1": "C08 gained long-lived decode targets (C17 caught it already)",
+ "C06-2": "C06 gained usernames built from 2- and 3-byte UTF-8 characters", "C09-2": "C09 gained histories in which a command gives up (context ends while retrying) before the next command",
  "C11-1": "C11 gained strays with completion codes C1/D4/C0/FF", "C11-2": "C11 gained two more DCMI and two OEM commands so that pairs differing only in the command number exist",
  "C12-2": "C12 gained explicit multi-suite preference lists with the answer set to another listed suite", "C14-2": "C14 gained erase-stamp-only changes and independent addition/erase stamps",
  "C18-1": "C18 gained steps with a real back-off and a deadline inside the wait"}
